@@ -186,6 +186,12 @@ Theorem C04_concat_inner_fixed_now :
 Proof. exact concat_inner_fixed_now. Qed.
 Print Assumptions C04_concat_inner_fixed_now.
 
+(* the range clause: one iterable operand, or two or three num operands (from, to, step); never four *)
+Theorem C04_range_operands_ok_iff : forall ts,
+  forallb spec_ty ts = true -> (range_operands_ok ts = true <-> RangeOperands (map erase ts)).
+Proof. exact range_operands_ok_iff. Qed.
+Print Assumptions C04_range_operands_ok_iff.
+
 (* loop variables: typed with the element type for exactly the iterable operand types … *)
 Theorem C04_range_var_spec : forall t,
   spec_ty t = true ->
@@ -299,4 +305,13 @@ Example C04_ex_loop_variable :
   check (CAssign (SArr SAny)) (EArr [ELoopVar (EVar (SArr (SArr SNum)))]) = Reject /\
   check (CAssign (SArr SAny)) (ELoopVar (EVar (SArr (SArr SNum)))) = Reject /\
   check CDecl (EArr [ELoopVar (EVar (SArr (SArr SNum))); EArr [ELitStr]]) = Accept (TArr true TAny) (TArr false TAny).
+Proof. vm_compute. repeat split; reflexivity. Qed.
+
+(* range 0 6 "2" is rejected; range 0 6 2 accepted; four operands rejected; a none-typed operand of == rejected *)
+Example C04_ex_range_operands :
+  range_operands_ok [TNum; TNum; TString] = false /\ range_operands_ok [TNum; TNum; TNum] = true /\
+  range_operands_ok [TNum; TNum; TNum; TNum] = false /\ range_operands_ok [TArr true TNum; TNum] = false /\
+  check (CRangeMore [ELitNum; ELitStr]) ELitNum = Reject /\
+  check (CRangeMore [ELitNum; EVar SNum]) ELitNum = Accept TNum TNum /\
+  validate_binary OpEq TNone TNone = false.
 Proof. vm_compute. repeat split; reflexivity. Qed.
